@@ -43,9 +43,6 @@ pub fn run_cost(args: &Args) -> Result<()> {
             for s3 in 0..2u8 {
                 for wait in 0..4u8 {
                     for dras in 0..8u8 {
-                        if (3..=5).contains(&area) && dras > 1 {
-                            continue;
-                        }
                         for fill in 0..4 {
                             let base: [u8; 5] = match fill {
                                 0 => [0, 0, 0, 0, 0],
